@@ -77,7 +77,7 @@ CLAIMS = {
  'C19': (T, 'proof',
   'of_rand.c is translated to Lean on every run (clang AST -> c2lean) and the theorems are re-proved over the translation: the Carta step '
   'equals 16807*s mod (2^31-1) for every state, outputs are exact floors when s\'*maxv<2^53 and always < maxv under the binary64 '
-  'standard model, the seeding guard, the 10000th state. The compiled C is also run against the translated model and a definitional oracle.',
+  'standard model, the seeding guard, the 10000th state; C19_executable_rounding_in_standard_model: the round-to-nearest-even function the executable model uses is itself proved to be in the standard model, so these theorems (and those of C20, C05) hold for the model that is run. The compiled C is also run against the translated model and a definitional oracle.',
   'Lean 4 theorems over a per-run C-to-Lean translation + differential run', 'DESIGN.md section 4, C19'),
  'C20': (T, 'proof',
   'of_compute_blocking_struct and double_to_closest_int are translated to Lean on every run; C20_full: for every 1 <= L < 2^32, E >= 1, B >= 1 and ANY rounding operator satisfying the binary64 standard model, the four outputs are N = ceil(T/B), A_large = ceil(T/N), A_small = floor(T/N), I = T mod N with T = ceil(L/E), hence A_large <= B and I*A_large + (N-I)*A_small = T (every ceil/floor is exact because quotients of 32-bit integers are at distance >= 1/divisor from the next integer; the product A_fraction*N is within 2^-18 of T mod N and the closest-integer routine returns it). Tie: exhaustive small T,B block and sampled 32-bit triples of the compiled C against the translated model with exact-rational rounding and an integer oracle.',
